@@ -425,6 +425,14 @@ func init() {
 					case 2:
 						pkt.HBH = []*slayers.HopByHopOption{{OptType: slayers.OptionType(41), OptData: []byte{1, 2}}}
 						pkt.E2E = []*slayers.EndToEndOption{{OptType: slayers.OptionType(42), OptData: []byte{3}}}
+					case 3:
+						// a packet authenticator option of another protocol (other SPI), of a size of its own: it
+						// means nothing to the time service either
+						d := randBytes(rand.New(rand.NewPCG(seed, 11)), []int{12, 16, 28, 32, 44, 60}[seed>>48&7%6])
+						d[0], d[1], d[2], d[3], d[4] = 0, 0, 0, 99, 1
+						o := &slayers.EndToEndOption{OptType: slayers.OptTypeAuthenticator, OptData: d}
+						o.OptAlign = [2]uint8{4, 2}
+						pkt.E2E = []*slayers.EndToEndOption{o}
 					}
 					dg, err := pkt.Serialize()
 					if err != nil {
